@@ -308,16 +308,32 @@ def tree_st(draw, K):
 
 
 @st.composite
-def scenario_st(draw, tier="quick"):
-    functional = draw(st.sampled_from(R.FCN_FUNCTIONALS + R.FCN_FUNCTIONALS + R.OP_FUNCTIONALS * 3))
+def scenario_st(draw, tier="quick", focus=None):
+    """focus=None: the general scenario distribution. Two thin corners of it get their own small task (same scenario space, same
+    oracle, other weights), because a run of the general task holds only a handful of them:
+    focus="dbgflag": an operator functional with the debug flag ON as the caller's own global setting (no context manager that
+                     would put it back), faults in every phase -- 'the global debug flag has its previous value';
+    focus="dtypes":  an object holding tensors of other dtypes (em_mixed) with the debug-mode parameter check active."""
+    if focus == "dbgflag":
+        functional = draw(st.sampled_from(R.OP_FUNCTIONALS))
+    elif focus == "dtypes":
+        functional = draw(st.sampled_from(R.FCN_FUNCTIONALS))
+    else:
+        functional = draw(st.sampled_from(R.FCN_FUNCTIONALS + R.FCN_FUNCTIONALS + R.OP_FUNCTIONALS * 3))
     method = draw(st.sampled_from(R.METHODS[functional]))
     case = {"functional": functional, "method": method, "phase": draw(st.sampled_from([0, 1, 1, 2, 2])),
             "seed": draw(st.integers(0, 2 ** 31 - 1)),
             "dbg_prior": draw(st.sampled_from([False, False, False, True])),
             "dbg_ctx": draw(st.sampled_from([None, None, "enable", "enable", "disable"]))}
+    if focus == "dbgflag":
+        case["dbg_prior"], case["dbg_ctx"] = True, None
+        case["phase"] = draw(st.sampled_from([1, 1, 2]))
+    elif focus == "dtypes":
+        case["dbg_prior"], case["dbg_ctx"] = draw(st.sampled_from([(True, None), (False, "enable"), (True, "enable")]))
     big = tier != "quick"
     if functional in R.FCN_FUNCTIONALS:
-        spec = draw(gen.funspec_st(2, 2, kinds=FAULT_KINDS, allow_unused=(functional != "mcquad")))
+        spec = draw(gen.funspec_st(2, 2, kinds=(["em_mixed"] if focus == "dtypes" else FAULT_KINDS),
+                                   allow_unused=(functional != "mcquad")))
         if spec["kind"] == "em_nn_part":
             spec["reverse"] = draw(st.booleans())
         if spec["kind"] in R.EXTRA_KINDS_R3:
@@ -365,7 +381,7 @@ def scenario_st(draw, tier="quick"):
             case["role"] = draw(st.sampled_from(["f", "p"]))
             case["ns"] = draw(st.integers(2, 8 if big else 4))
     else:
-        case["lkind"] = draw(st.sampled_from(FAULT_LINOP_KINDS))
+        case["lkind"] = draw(st.sampled_from([k for k in FAULT_LINOP_KINDS if k != "comp"] if focus == "dbgflag" else FAULT_LINOP_KINDS))
         case["impl"] = draw(st.sampled_from(R.LINOP_IMPLS))
         if case["lkind"] in R.LINOP_KINDS_R3:
             case["amap"] = draw(amap_st())
@@ -869,17 +885,38 @@ def run_reassign(case):
     m, g = build()
     fcn = m.evaluate if kind == "em" else m.forward
 
+    # round 4: the caller's explicit differentiable inputs (time points and initial state of solve_ivp, tensor limits of quad) take part
+    # in the comparison too: their gradients are evaluated by calling the caller's method again during the backward pass, and that
+    # evaluation must see the tensors of the forward call as well (case["ext"]; solve_ivp method and grid direction are drawn)
+    ext = bool(case.get("ext", False))
+    ext_inputs = []
+
     def call(obj_fcn):
         y0 = torch.zeros((n,), dtype=DT)
+        del ext_inputs[:]
         if fn == "rootfinder":
             return rootfinder(obj_fcn, y0, method="broyden1", f_tol=1e-12)
         if fn == "equilibrium":
             return equilibrium(obj_fcn, y0, method="broyden1", f_tol=1e-12)
         if fn == "quad":
+            if ext:
+                xl, xu = torch.tensor(0.0, dtype=DT, requires_grad=True), torch.tensor(1.0, dtype=DT, requires_grad=True)
+                ext_inputs.extend([xl, xu])
+                return quad(obj_fcn, xl, xu, n=6)
             return quad(obj_fcn, 0.0, 1.0, n=6)
-        return solve_ivp(obj_fcn, torch.linspace(0, 1, 4, dtype=DT), torch.ones((n,), dtype=DT), method="rk4")
+        ts = torch.linspace(0, 1, 4, dtype=DT)
+        if case.get("tsdir", 1) < 0:
+            ts = ts.flip(0).contiguous()
+        y00 = torch.ones((n,), dtype=DT)
+        if ext:
+            ts.requires_grad_()
+            y00.requires_grad_()
+            ext_inputs.extend([ts, y00])
+        return solve_ivp(obj_fcn, ts, y00, method=case.get("ivp_method", "rk4"))
     which = case["which"]
-    labels = ["task=reassign", "functional=" + fn, "kind=" + kind, "which=" + which, "order=%d" % case["order"]]
+    labels = ["task=reassign", "functional=" + fn, "kind=" + kind, "which=" + which, "order=%d" % case["order"], "ext=%s" % ext]
+    if fn == "solve_ivp":
+        labels.append("ivp=%s/%s" % (case.get("ivp_method", "rk4"), "dec" if case.get("tsdir", 1) < 0 else "inc"))
     second = case["order"] == 2
     W = None
 
@@ -895,7 +932,7 @@ def run_reassign(case):
         return [None if gi is None else gi.detach().clone() for gi in gs]
     # reference run: no reassignment
     y = xt_call(call, fcn, _where="forward")
-    ref = xt_call(grads, y, [m.A, m.b], _where="backward")
+    ref = xt_call(grads, y, [m.A, m.b] + list(ext_inputs), _where="backward")
     # the history under test
     m2, g = build()
     W = None
@@ -907,7 +944,7 @@ def run_reassign(case):
     setattr(m2, which, newt)
     other = "b" if which == "A" else "A"
     names_before = [nm for nm, _ in m2.named_parameters()] if kind == "nn" else None
-    got = xt_call(grads, y2, olds, _where="backward")
+    got = xt_call(grads, y2, olds + list(ext_inputs), _where="backward")
     if getattr(m2, which) is not newt:
         back = "the tensor of the forward call" if getattr(m2, which) is olds[0 if which == "A" else 1] else "another tensor"
         return violation("reassigned_tensor_reverted", "after the backward pass the caller's object holds %s under %r instead of the tensor the caller "
@@ -927,8 +964,14 @@ def run_reassign(case):
 
 @st.composite
 def reassign_st(draw, tier="quick"):
-    return {"functional": draw(st.sampled_from(["rootfinder", "equilibrium", "quad", "solve_ivp"])), "kind": draw(st.sampled_from(["em", "nn"])),
+    case = {"functional": draw(st.sampled_from(["rootfinder", "equilibrium", "quad", "solve_ivp", "solve_ivp"])), "kind": draw(st.sampled_from(["em", "nn"])),
             "which": draw(st.sampled_from(["A", "b"])), "order": draw(st.sampled_from([1, 1, 2])), "seed": draw(st.integers(0, 2 ** 31 - 1))}
+    if case["functional"] in ("quad", "solve_ivp"):
+        case["ext"] = draw(st.sampled_from([False, True, True]))
+    if case["functional"] == "solve_ivp":
+        case["ivp_method"] = draw(st.sampled_from(["rk4", "rk4", "euler", "rk38", "rk45", "rk23"]))
+        case["tsdir"] = draw(st.sampled_from([1, 1, -1]))
+    return case
 
 
 def tasks(tier):
@@ -939,5 +982,8 @@ def tasks(tier):
              steps={"quick": 14, "thorough": 24}),
         Task("reassign", strategy=reassign_st(tier), run=run_reassign, examples={"quick": 120, "thorough": 1000}),
         # the expensive task last: under a wall budget cut short (loaded machine) the cheap tasks have run
-        Task("faults", strategy=scenario_st(tier), run=run_faults, examples={"quick": 760, "thorough": 10000}),
+        # round 4: two thin corners of the scenario space as small tasks of their own (see scenario_st), taken out of the budget of `faults`
+        Task("faults_dbgflag", strategy=scenario_st(tier, focus="dbgflag"), run=run_faults, examples={"quick": 40, "thorough": 600}),
+        Task("faults_dtypes", strategy=scenario_st(tier, focus="dtypes"), run=run_faults, examples={"quick": 40, "thorough": 600}),
+        Task("faults", strategy=scenario_st(tier), run=run_faults, examples={"quick": 700, "thorough": 9000}),
     ]
